@@ -339,6 +339,90 @@ func apiProbes() []probe {
 		}},
 		{"DetailedError(nil)", func() error { _ = nject.DetailedError(nil); return nil }},
 		{"DetailedError(foreign)", func() error { _ = nject.DetailedError(fmt.Errorf("x")); return nil }},
+		// a Reflective provider is checked like a function: TerminalError twice is refused, not bound and then mis-delivered
+		{"Reflective provider returning TerminalError twice (bind, then invoke)", func() error {
+			te := reflect.TypeOf((*nject.TerminalError)(nil)).Elem()
+			rp := nject.MakeReflective(nil, []reflect.Type{te, te, reflect.TypeOf("")}, func([]reflect.Value) []reflect.Value {
+				return []reflect.Value{reflect.Zero(te), reflect.Zero(te), reflect.ValueOf("x")}
+			})
+			var f func() (string, error)
+			if err := nject.Sequence("p", rp, func(s string) (string, error) { return s, nil }).Bind(&f, nil); err != nil {
+				return err
+			}
+			if s, _ := f(); s != "x" {
+				panic("accepted, and the consumer of string received " + s)
+			}
+			return nil
+		}},
+		{"condensed collection returning TerminalError twice (bind, then invoke)", func() error {
+			inner := nject.Sequence("inner", func() (nject.TerminalError, int) { return nil, 3 },
+				func(i int) (nject.TerminalError, string) { return nil, fmt.Sprint("s", i) })
+			p, err := inner.Condense(true)
+			if err != nil {
+				return err
+			}
+			var f func() (string, error)
+			if err := nject.Sequence("outer", p, func(s string) (string, error) { return s, nil }).Bind(&f, nil); err != nil {
+				return err
+			}
+			if s, _ := f(); s != "s3" {
+				panic("accepted, and the consumer of string received " + s)
+			}
+			return nil
+		}},
+		// the signature slices handed to MakeReflective / MakeReflectiveWrapper stay the caller's: two providers described
+		// from one table (sub-slices with spare capacity) are the two providers described
+		{"reflective-args/wrappers described from one signature table expect=accepted", func() error {
+			tT0, tT1, tT2, tT3 := codeType[0], codeType[1], codeType[2], codeType[3]
+			tb := []reflect.Type{tT0, tT1, tT2, tT3}
+			keep := append([]reflect.Type(nil), tb...)
+			w1 := nject.MakeReflectiveWrapper(tb[:1], nil, nil, nil, func(in []reflect.Value) []reflect.Value {
+				in[0].Interface().(func([]reflect.Value) []reflect.Value)(nil)
+				return nil
+			})
+			w2 := nject.MakeReflectiveWrapper(tb[1:2], nil, tb[2:3], nil, func(in []reflect.Value) []reflect.Value {
+				in[0].Interface().(func([]reflect.Value) []reflect.Value)([]reflect.Value{reflect.ValueOf(T2{Tag: 7})})
+				return nil
+			})
+			i1 := nject.MakeReflective(tb[:2], tb[3:4], func([]reflect.Value) []reflect.Value { return []reflect.Value{reflect.ValueOf(T3{Tag: 9})} })
+			for i := range tb {
+				if tb[i] != keep[i] {
+					return fmt.Errorf("the caller's signature table was overwritten at %d: %s", i, tb[i])
+				}
+			}
+			if w1.In(1) != tT0 || w1.NumIn() != 2 || w2.In(1) != tT1 || w2.NumIn() != 2 || i1.NumIn() != 2 || i1.In(0) != tT0 || i1.In(1) != tT1 {
+				return fmt.Errorf("a reflective provider does not report the signature it was given")
+			}
+			var f func(T0, T1) T3
+			var got T2
+			err := nject.Sequence("p", w1, w2, func(a T2) { got = a }, i1, func(x T3, a T2) T3 { return x }).Bind(&f, nil)
+			if err != nil {
+				return fmt.Errorf("the chain the plain functions would bind is refused: %s", oneLine(err.Error()))
+			}
+			if x := f(T0{Tag: 1}, T1{Tag: 2}); x.Tag != 9 || got.Tag != 7 {
+				return fmt.Errorf("wrong values delivered")
+			}
+			return nil
+		}},
+		// memo keys: inputs that differ give different keys (a nil interface is not the empty struct, nor a typed zero)
+		{"memo-keys/nil interface, struct{}{} and typed zeros are different inputs expect=accepted", func() error {
+			calls := 0
+			var f func(any) string
+			err := nject.Sequence("p", nject.Memoize(func(x any) string { calls++; return fmt.Sprintf("%T/%v", x, x) }), func(s string) string { return s }).Bind(&f, nil)
+			if err != nil {
+				return nil // refusing such a provider is allowed
+			}
+			ins := []any{nil, struct{}{}, 0, "", int64(0), [0]int{}, false, nil, struct{}{}, 0}
+			for _, x := range ins {
+				if got, want := f(x), fmt.Sprintf("%T/%v", x, x); got != want {
+					return fmt.Errorf("input %s answered with the memoized result for %s", want, got)
+				}
+			}
+			if calls != 7 {
+				return fmt.Errorf("7 different inputs, %d calls", calls)
+			}
+			return nil
+		}},
 	}
 }
 
